@@ -799,7 +799,7 @@ pub fn run(ctx: &Ctx) {
     let certs = certificates();
     ctx.note("certificate_variants", serde_json::json!(certs.iter().map(|c| c.what.clone()).collect::<Vec<_>>()));
     ctx.group("certificate-paths", Source::Indexed { count: certs.len() as u64 }, |t, rec| certificate_case(t, rec, &certs));
-    let n = ctx.tier.pick(400u64, 6000);
+    let n = ctx.tier.pick(400u64, 180_000);
     ctx.group("ops-vs-signature", Source::Random { n, tape_len: 64 }, ops_case);
     ctx.group("unknown-subpacket-criticality", Source::Indexed { count: 128 * 4 }, critical_case);
     ctx.group("issuer-fingerprint-version", Source::Indexed { count: 32 }, issuer_fpr_version_case);
